@@ -95,6 +95,14 @@ def f_invoke_multi(m):
                                                      {"id": "i2", "src": "svcB", "onError": {"target": "w2", "guard": "ready"}}]
 
 
+def f_invoke_id_eq_src(m):
+    # an explicit invoke id spelled like its src (NOT redundant: the default id is the hosting state's id), with an
+    # ordinary `on` handler keyed by the id-dependent completion event
+    m["states"]["work"]["states"]["w1"]["invoke"] = {"id": "fetchData", "src": "fetchData"}
+    m["states"]["work"]["states"]["w1"].setdefault("on", {})["done.invoke.fetchData"] = {"target": "w2", "actions": ["store"]}
+    m["states"]["work"]["states"]["w1"]["on"]["error.platform.fetchData"] = "#fam.idle"
+
+
 def f_guard_named(m):
     m["states"]["idle"]["on"]["GO"] = {"target": "work", "guard": "ready"}
 
@@ -325,9 +333,9 @@ def combo_case(seed, idx):
             if used_par:
                 continue
             used_par = True
-        if n in ("history_deep", "hierarchy3") and any(p in ("history_deep", "hierarchy3", "invoke_basic", "invoke_id_input", "invoke_multi", "target_relative_dot", "forbidden") for p in pick):
+        if n in ("history_deep", "hierarchy3") and any(p in ("history_deep", "hierarchy3", "invoke_basic", "invoke_id_input", "invoke_multi", "invoke_id_eq_src", "target_relative_dot", "forbidden") for p in pick):
             continue
-        if n in ("invoke_basic", "invoke_id_input", "invoke_multi", "target_relative_dot", "forbidden") and any(p in ("history_deep", "hierarchy3") for p in pick):
+        if n in ("invoke_basic", "invoke_id_input", "invoke_multi", "invoke_id_eq_src", "target_relative_dot", "forbidden") and any(p in ("history_deep", "hierarchy3") for p in pick):
             continue
         if n == "always" and "always_legacy" in pick or n == "always_legacy" and "always" in pick:
             continue
